@@ -204,6 +204,19 @@ CLAIMED["C18"] = (
     "DESIGN.md §3 C18",
     "One known finding (macro argument defaults) is listed; its repair would change macro closure capture.")
 
+CLAIMED["C07"] = (
+    "finite-domain abstract interpretation of Value::eq / cmp / hash / kind and ops::coerce over all 169 ordered pairs of ValueRepr variants (callee summaries extracted from MIR) + comparator lint",
+    "Static check of the variant-level clauses of the property: for every ordered pair of the 13 value "
+    "representations an abstract interpreter over MIR (discriminants only, summaries of coerce / as_f64 / integer "
+    "TryFrom / kind computed from their own MIR) decides whether == can hold, whether cmp can reach an unwrap on a "
+    "definite None, and which hashing family each variant uses; it requires that equality never crosses kinds (cmp "
+    "is kind-first), that possibly-equal variants hash through the same family, that cmp is defined for every pair "
+    "and that comparators handed to sort/min/max are total.  Laws over concrete values within one pair "
+    "(transitivity, NaN, 2^53 neighbourhood) and the algebra of sort/unique/groupby/batch/slice/reverse are "
+    "value-level and NOT decided or claimed.",
+    "DESIGN.md §3 C07",
+    "Known findings (true == 1 across kinds and hashes) are listed; host Object::custom_cmp implementations are outside the analysis.")
+
 NOT_APPLICABLE = {
 }
 
